@@ -66,7 +66,7 @@ def reconnect_oracle(ix: Index, scn: dict) -> list[Violation]:
     # --- control ops -----------------------------------------------------------------
     ctl = []  # (seq_start, seq_end, kind, t)
     for op in ix.ops:
-        if op.do in ("rl.start", "rl.stop", "rl.stop_callback"):
+        if op.do in ("rl.start", "rl.stop", "rl.stop_callback") and op.ok is not False:
             ctl.append((op.s0, op.s1 if op.s1 is not None else float("inf"), op.do, op.t0))
     records = [(ev[0], ev[2], ev[4]) for ev in h if ev[3] == "mdns_records"]
 
@@ -218,6 +218,8 @@ def reconnect_oracle(ix: Index, scn: dict) -> list[Violation]:
                 continue
             if _stopped_at(ctl, seq) or any(a <= seq <= b for a, b, k, tt in ctl) or _callback_running(h, seq):
                 continue
+            if scn.get("zc_unavailable"):
+                continue  # (no instance could be created for part of the run: registration is not judged there)
             if any(a["seq_new"] < seq and (a["seq_closed"] is None or a["seq_closed"] > seq) for a in attempts):
                 continue
             prev = [ev for ev in h if ev[0] < seq and ev[3] in ("rl_on_error_done", "rl_on_disconnect_done", "rl_on_connect")]
@@ -277,6 +279,11 @@ def reconnect_oracle(ix: Index, scn: dict) -> list[Violation]:
         live = [a for a in attempts if a["connected"] and a["seq_closed"] is None]
         if not live:
             out.append(Violation("no-progress", "", f"manager started, device healthy and reachable since t={tail:.3f}, but no session is established at t={end_t:.3f}"))
+    elif last_ctl is not None and last_ctl[2] == "rl.start" and last_ctl[1] != float("inf") and ix.run_end and ix.run_end[4].get("reason") == "quiescent" and not confused:
+        # nothing is left to happen (no timer, no task, no I/O) although the manager is started: with no session alive it has
+        # given up for good - whatever made its last attempt or its retry scheduling fail
+        if not [a for a in attempts if a["connected"] and a["seq_closed"] is None]:
+            out.append(Violation("no-progress", "dead", f"manager started (last start() at t={last_ctl[3]:.3f}), no session alive, and nothing left to happen at t={end_t:.3f}: it will never try again"))
     return out
 
 
@@ -382,6 +389,8 @@ def gen_c18(rng: random.Random) -> dict:
         others = [{"type": "TXT", "name": "other._esphomelib._tcp.local."}, {"type": "SRV", "name": "other._esphomelib._tcp.local.", "server": "other.local."}, {"type": "AAAA", "name": "other.local."}]
         if rng.random() < 0.12:
             rec = pick(rng, others)
+        if rng.random() < 0.3:
+            rec = dict(rec, cached=True)  # an update of a record zeroconf still holds in its cache (old == new)
         recs = [rec]
         if rng.random() < 0.25:
             # one update carrying several records (the matching one, if any, not necessarily first)
@@ -462,6 +471,12 @@ def gen_c18(rng: random.Random) -> dict:
         scn["healthy_from"] = healthy_from
     if rng.random() < 0.25:
         scn["knobs"]["zc_close_delay"] = pick(rng, [0.1, 0.5])
+    if client["zeroconf"] is None and rl_zc is None and rng.random() < 0.12:
+        # for a while the host cannot open an mDNS socket (no usable interface yet, a container without host networking):
+        # creating the zeroconf instance fails. The manager cannot listen then - it still retries by its timer
+        scn["knobs"]["zc_create_fails"] = True
+        scn["events"].append({"at": {"t": pick(rng, [0.5, 3.0, T / 2, T])}, "do": "fault", "kind": "knob", "name": "zc_create_fails", "value": False})
+        scn["zc_unavailable"] = True
     return scn
 
 
